@@ -60,7 +60,7 @@ LoadAff(g, d, A) == [op |-> "cm", g |-> g, fn |-> "load_aff", d |-> d, v |-> A]
 
 PairOps(g, P, S, cp, cs, i) ==
   << Load(g, 0, Jac(g, P, cp, i), "table"), Load(g, 1, Jac(g, S, cs, i + 3), "table"),
-     LoadAff(g, 1, AffRec(g, S)),
+     (IF Len(S) = 0 THEN CmD(g, "zero_aff", 1) ELSE LoadAff(g, 1, AffRec(g, S))),
      CmDS(g, "copy", 2, 0), CmDS(g, "add", 2, 1),
      CmDS(g, "copy", 2, 0), CmDS(g, "sub", 2, 1),
      CmDS(g, "copy", 2, 0), CmDS(g, "add_mixed", 2, 1),
